@@ -368,6 +368,11 @@ func Schemas2020(thorough bool) *Set {
 		}
 		s.Add("Pref", `{"$defs":{"d":`+x+`},"properties":{"a":{"$ref":"#/$defs/d"}},"items":{"$ref":"#/$defs/d"}}`)
 	}
+	regexForms(s, true)
+	// an $id with an empty fragment is allowed and names the resource without it
+	s.Add("Pref", `{"$defs":{"d":{"$id":"http://h/d.json#","type":"integer"}},"$ref":"http://h/d.json"}`)
+	s.Add("Pref", `{"$defs":{"a":{"type":"string"},"d":{"$id":"http://h/d.json#","$defs":{"a":{"type":"integer"}},"$ref":"#/$defs/a"}},"properties":{"a":{"$ref":"#/$defs/d"},"b":{"$ref":"#/$defs/a"}}}`)
+	s.Add("Pref", `{"$id":"http://h/root.json#","$defs":{"a":{"type":"integer"}},"properties":{"a":{"$ref":"http://h/root.json#/$defs/a"},"b":{"$ref":"root.json#/$defs/a"}}}`)
 	for _, a := range atoms {
 		s.Add("Pref", Obj(KV{"$defs", `{"d":{"type":"integer"}}`}, KV{"$ref", `"#/$defs/d"`}, a))
 		s.Add("Pref", Obj(KV{"$defs", `{"d":{"required":["a"]}}`}, KV{"$ref", `"#/$defs/d"`}, a))
@@ -559,6 +564,14 @@ func Schemas07(thorough bool) *Set {
 			s.Add("Plater", Obj(KV{"contains", c}, KV{"minContains", mm[0]}, KV{"maxContains", mm[1]}))
 		}
 	}
+	regexForms(s, false)
+	// an $id that ends in an empty fragment ("...#", the spelling of the draft-07 meta-schema) names a
+	// resource like the same URI without it: references by URI reach it, pointers below it start there
+	s.Add("Pref", `{"definitions":{"d":{"$id":"http://h/d.json#","type":"integer"}},"allOf":[{"$ref":"http://h/d.json"}]}`)
+	s.Add("Pref", `{"definitions":{"d":{"$id":"http://h/d.json#","type":"integer"}},"items":{"$ref":"http://h/d.json#"}}`)
+	s.Add("Pref", `{"definitions":{"a":{"type":"string"},"d":{"$id":"http://h/d.json#","definitions":{"a":{"type":"integer"}},"allOf":[{"$ref":"#/definitions/a"}]}},"properties":{"a":{"$ref":"#/definitions/d"},"b":{"$ref":"#/definitions/a"}}}`)
+	s.Add("Pref", `{"$id":"http://h/root.json#","definitions":{"a":{"type":"integer"}},"properties":{"a":{"$ref":"http://h/root.json#/definitions/a"},"b":{"$ref":"root.json#/definitions/a"}}}`)
+	s.Add("Pref", `{"$id":"http://h/dir/root.json#","definitions":{"a":{"type":"integer"},"e":{"$id":"e.json#","definitions":{"k":{"$id":"#k","type":"string"}}}},"properties":{"a":{"$ref":"http://h/dir/e.json#k"},"b":{"$ref":"e.json"}}}`)
 	// a fragment-only $id inside an embedded resource is an anchor of that resource
 	s.Add("Pref", `{"definitions":{"e":{"$id":"http://h/e.json","definitions":{"k":{"$id":"#k","type":"integer"}}}},"allOf":[{"$ref":"http://h/e.json#k"}]}`)
 	s.Add("Pref", `{"definitions":{"e":{"$id":"http://h/e.json","definitions":{"k":{"$id":"#k","type":"integer"}},"allOf":[{"$ref":"#k"}]},"k":{"$id":"#k","type":"string"}},"properties":{"a":{"$ref":"http://h/e.json"},"b":{"$ref":"#k"}}}`)
@@ -597,4 +610,23 @@ func (s *Set) SortedPools() map[string]int {
 		out[k] = s.Pool[k]
 	}
 	return out
+}
+
+// regexForms: the regular-expression keywords with patterns of every anchoring (a fully anchored
+// literal must match the whole string, not a part of it), alternation and optional parts, over
+// the names and strings of the pool (a, b, ab, ba, abcd, the empty string).
+func regexForms(s *Set, d2020 bool) {
+	for _, p := range []string{`^a$`, `^ab$`, `^b`, `ab`, `^.$`, `^a?b$`, `^(a|b)$`, `b$`, `^$`} {
+		q := `"` + p + `"`
+		s.Add("Prx", `{"pattern":`+q+`}`)
+		s.Add("Prx", `{"patternProperties":{`+q+`:{"type":"integer"}}}`)
+		s.Add("Prx", `{"patternProperties":{`+q+`:{"type":"integer"}},"additionalProperties":false}`)
+		s.Add("Prx", `{"patternProperties":{`+q+`:true,"^c":{"type":"string"}},"additionalProperties":{"type":"string"}}`)
+		s.Add("Prx", `{"propertyNames":{"pattern":`+q+`}}`)
+		s.Add("Prx", `{"items":{"pattern":`+q+`}}`)
+		if d2020 {
+			s.Add("Prx", `{"patternProperties":{`+q+`:true},"unevaluatedProperties":false}`)
+			s.Add("Prx", `{"allOf":[{"patternProperties":{`+q+`:true}}],"unevaluatedProperties":{"type":"string"}}`)
+		}
+	}
 }
